@@ -112,8 +112,8 @@ func TestC01(t *testing.T) {
 							var refs []vcase.Ref
 							v.Expr.Refs(&refs)
 							for _, r := range refs {
-								if r.Stage == "closed" {
-									class = " [class: an output references closed.result of a step]"
+								if r.Stage == "closed" || r.Stage == "crashed" || r.Stage == "failed" {
+									class = " [class: an output references closed.result, crashed.error or failed.error of a step]"
 								}
 							}
 						}
